@@ -203,6 +203,86 @@ func (p *Pool) Recipient(r RecSpec) age.Recipient {
 	panic("bad recipient kind " + r.Kind)
 }
 
+// RecipientVia builds the same recipient as Recipient through another public
+// route of the library: 0 = constructor / Identity.Recipient(), 1 = parsed from
+// its string form, 2 = parsed from a recipients file (X25519), taken from the
+// passphrase-protected identity (ssh-ed25519 0..2) or from the identity (ssh-rsa).
+func (p *Pool) RecipientVia(r RecSpec, route int) age.Recipient {
+	must := func(rec age.Recipient, err error) age.Recipient {
+		if err != nil {
+			panic(err)
+		}
+		return rec
+	}
+	switch r.Kind {
+	case "x25519":
+		str := refage.Bech32Encode("age", refage.X25519Public(p.X25519[r.Idx]))
+		switch route % 3 {
+		case 1:
+			rec, err := age.ParseX25519Recipient(str)
+			return must(rec, err)
+		case 2:
+			rs, err := age.ParseRecipients(strings.NewReader("# one key\n" + str + "\n"))
+			if err != nil || len(rs) != 1 {
+				panic(fmt.Sprint("ParseRecipients: ", err))
+			}
+			return rs[0]
+		}
+	case "ed25519":
+		switch route % 3 {
+		case 1:
+			return must(agessh.ParseRecipient(refage.AuthorizedKey("ssh-ed25519", refage.SSHWireEd25519(p.Ed[r.Idx].Public().(ed25519.PublicKey))) + " comment"))
+		case 2:
+			if r.Idx < len(p.EdEncPEM) {
+				eid, err := agessh.NewEncryptedSSHIdentity(sshPub(p.Ed[r.Idx]), p.EdEncPEM[r.Idx], func() ([]byte, error) { return nil, fmt.Errorf("no passphrase needed to encrypt") })
+				if err != nil {
+					panic(err)
+				}
+				return eid.Recipient()
+			}
+		}
+	case "rsa":
+		switch route % 3 {
+		case 1:
+			return must(agessh.ParseRecipient(refage.AuthorizedKey("ssh-rsa", refage.SSHWireRSA(&p.RSA[r.Idx].PublicKey))))
+		case 2:
+			id, err := agessh.NewRSAIdentity(p.RSA[r.Idx])
+			if err != nil {
+				panic(err)
+			}
+			return id.Recipient()
+		}
+	}
+	return p.Recipient(r)
+}
+
+// IdentityVia: 0 = constructor, 1 = parsed from the key file form.
+func (p *Pool) IdentityVia(r RecSpec, route int) age.Identity {
+	if route%2 == 1 {
+		switch r.Kind {
+		case "x25519":
+			ids, err := age.ParseIdentities(strings.NewReader("# created: today\n" + refage.Bech32Encode("AGE-SECRET-KEY-", p.X25519[r.Idx]) + "\n"))
+			if err != nil || len(ids) != 1 {
+				panic(fmt.Sprint("ParseIdentities: ", err))
+			}
+			return ids[0]
+		case "ed25519":
+			id, err := agessh.ParseIdentity(p.EdPEM[r.Idx])
+			if err != nil {
+				panic(err)
+			}
+			return id
+		case "rsa":
+			id, err := agessh.ParseIdentity(p.RSAPEM[r.Idx])
+			if err != nil {
+				panic(err)
+			}
+			return id
+		}
+	}
+	return p.Identity(r)
+}
+
 func (p *Pool) X25519Identity(i int) *age.X25519Identity {
 	s := refage.Bech32Encode("AGE-SECRET-KEY-", p.X25519[i])
 	id, err := age.ParseX25519Identity(s)
